@@ -53,10 +53,11 @@ type persistRule struct {
 	errKeyA  string // predicate key of (saveErr == nil)
 	errKeyM  string // predicate key of (marshalErr == nil)
 	sites    map[string]token.Pos
+	ix       *ipIndex
 }
 
 func (r *persistRule) Inline(fn *ssa.Function) bool { return PkgOf(fn) == PkgBus && fn != r.R.NameFn }
-func (r *persistRule) PredOK(key string) bool        { return true }
+func (r *persistRule) PredOK(key string) bool       { return true }
 
 func nilKey(k string) string {
 	a, b := "nil", k
@@ -203,10 +204,8 @@ func (r *persistRule) OnInstr(e *Engine, st *State, fc *FrameCtx, in ssa.Instruc
 			}
 			if len(cc.Args) == 3 {
 				// error argument is Append's error
-				okErr := false
-				if ex, ok := stripConv(cc.Args[2]).(*ssa.Extract); ok && ex.Index == 1 && r.appendIn != nil && ex.Tuple == r.appendIn {
-					okErr = true
-				}
+				av, _ := e.ArgValue(fc, cc.Args[2])
+				okErr := r.isAppendErr(av, 0)
 				if !okErr {
 					e.Report(st, in.Pos(), "persist-fn/obs/complete-error-arg", "OnPersistComplete is not given the error returned by Append")
 				}
@@ -226,6 +225,49 @@ func (r *persistRule) OnInstr(e *Engine, st *State, fc *FrameCtx, in ssa.Instruc
 		}
 	}
 	return false
+}
+
+// isAppendErr: v is the error Append returned — directly, or as the result of a helper of
+// the package every return of which hands back that error.
+func (r *persistRule) isAppendErr(v ssa.Value, d int) bool {
+	v = stripConv(v)
+	if ex, ok := v.(*ssa.Extract); ok && ex.Index == 1 && r.appendIn != nil && ex.Tuple == r.appendIn {
+		return true
+	}
+	if d > 3 {
+		return false
+	}
+	if ld, ok := v.(*ssa.UnOp); ok && ld.Op == token.MUL {
+		if al, ok := ld.X.(*ssa.Alloc); ok {
+			n, all := 0, true
+			for _, ref := range *al.Referrers() {
+				if st, ok := ref.(*ssa.Store); ok && st.Addr == al {
+					n++
+					if !r.isAppendErr(st.Val, d+1) {
+						all = false
+					}
+				}
+			}
+			return n > 0 && all
+		}
+	}
+	if r.ix == nil {
+		r.ix = newIPIndex(r.p)
+	}
+	idx := 0
+	if ex, ok := v.(*ssa.Extract); ok {
+		idx = ex.Index
+	}
+	rs := r.ix.Returned(v, idx)
+	if len(rs) == 0 {
+		return false
+	}
+	for _, rv := range rs {
+		if !r.isAppendErr(rv, d+1) {
+			return false
+		}
+	}
+	return true
 }
 
 func (r *persistRule) checkRecord(e *Engine, st *State, fc *FrameCtx, in ssa.Instruction, rec ssa.Value) {
